@@ -326,6 +326,10 @@ ATTACKS = {
     "os_time_only": "return (os.getenv or os.remove or os.rename or os.exit or os.tmpname) and 'GOT os.*' or 'no'",
     "userdata_metatable_writable": "local mt = getmetatable(mw_python_get_page_info); if type(mt) ~= 'table' then return 'no' end local ok = pcall(function() mt.__c06probe = 1 end); local w = ok and mt.__c06probe == 1; if w then mt.__c06probe = nil end return w and 'GOT writable metatable shared by all Python objects' or 'no'",
     "userdata_gc_callable": "local mt = getmetatable(frame.preprocess); return (type(mt) == 'table' and type(mt.__gc) == 'function') and 'GOT __gc of Python objects' or 'no'",
+    "bytecode_page_is_loaded": "local ok, r = pcall(require, 'Module:bcpage'); return (ok and r == 'RAN-FROM-BYTECODE') and 'GOT precompiled chunk executed' or 'no'",
+    "string_dump_available": "return (string.dump ~= nil) and 'GOT string.dump' or 'no'",
+    "python_exception_object": "local ok, e = pcall(mw_python_get_page_content); return (not ok and type(e) ~= 'string') and ('GOT error value of type ' .. type(e)) or 'no'",
+    "python_exception_object_xpcall": "local seen; xpcall(function() mw_python_get_page_content() end, function(e) seen = type(e) return e end); return (seen ~= nil and seen ~= 'string') and ('GOT handler sees ' .. seen) or 'no'",
     "write_file_via_io": "local ok, r = pcall(function() local io = require('io'); local f = io.open('__CANARY_DIR__/written', 'w'); f:write('x'); f:close(); return 'WROTE' end); return ok and r or 'no'",
 }
 
@@ -402,6 +406,24 @@ def helper_histories(part, nparts, length):
     return out, n, names, loaded
 
 
+def lua51_chunk(text):
+    """A precompiled Lua 5.1 chunk (little endian, 64 bit) whose main function returns `text`; every byte is < 0x80, so it
+    survives the page store as a str."""
+    import struct
+
+    def lstr(x):
+        b = x.encode() + b"\0"
+        return struct.pack("<Q", len(b)) + b
+
+    loadk = 1 | 0 << 6 | 0 << 14                 # LOADK  R0 K0
+    ret2 = 30 | 0 << 6 | 2 << 23                  # RETURN R0 2
+    f = struct.pack("<Q", 0) + struct.pack("<ii", 0, 0) + bytes([0, 0, 0, 2])
+    f += struct.pack("<i", 3) + b"".join(struct.pack("<I", c) for c in (loadk, ret2, ret2))   # (B=1 would need the byte 0x80)
+    f += struct.pack("<i", 1) + b"\4" + lstr(text)
+    f += struct.pack("<i", 0) + struct.pack("<iii", 0, 0, 0)
+    return (b"\x1bLuaQ\x00\x01\x04\x08\x04\x08\x00" + f).decode("ascii")
+
+
 def run_attacks():
     out = []
     canary_dir = scratch_dir("c06atk")
@@ -412,6 +434,7 @@ def run_attacks():
     ctx.add_page("Template:t", 10, "T")
     n = 0
     ctx.add_page("Module:warm", 828, "local e = {} function e.f(frame) return 'w' end return e", model="Scribunto")
+    ctx.add_page("Module:bcpage", 828, lua51_chunk("RAN-FROM-BYTECODE"), model="Scribunto")
     ctx.start_page("Tt")
     ctx.expand("{{#invoke:warm|f}}")   # initialises the sandbox (this writes the bootstrap page once)
     for name, code in sorted(ATTACKS.items()):
